@@ -180,6 +180,7 @@ func (h *cwHist) checkQuery(run *cwRun, tr *cwTaskRun, op COp, qs, qe int, at ma
 		a["reload_left_seq_behind"] = "no"
 		if run.seqBehind != "" {
 			a["reload_left_seq_behind"] = "yes"
+			a["reorg_during_reload"] = run.seqBehindReorg
 		}
 		a["unlisted_files_before_restart"] = "no"
 		if run.unlistedBeforeRestart == "yes" {
